@@ -163,7 +163,7 @@ def wave_setter_model(ctx, env):
                    z3.And(z3.Implies(z3.And(q >= 0, q < S.z(n), sel(q)), S.z(S.gt(g.value(q), 0))),
                           z3.Implies(z3.And(p_ >= 0, p_ < q, q < S.z(n), sel(p_), sel(q)), S.z(S.lt(g.value(p_), g.value(q))))), 'requires')
         ctx.ghost_wave_sets.append({'self': self, 'value': g, 'ok': True})
-        ctx.assumptions.add('abstract:Spectrum.wave setter accepts every positive strictly increasing grid')
+        ctx.assumptions.add('callee contract:Spectrum.wave setter accepts exactly the positive strictly increasing grids (discharged against the body: Spectrum.wave.setter#body)')
         self.attrs['_wave'] = g
         ctx.write_event(self, 'setattr _wave')
         return None
@@ -178,7 +178,7 @@ def wave_setter_model(ctx, env):
                    z3.And(z3.Implies(z3.And(q >= 0, q < S.z(n)), S.z(S.gt(value.at((q,)), 0))),
                           z3.Implies(z3.And(q >= 0, q + 1 < S.z(n)), S.z(S.lt(value.at((q,)), value.at((q + 1,)))))), 'requires')
         ctx.ghost_wave_sets.append({'self': self, 'value': value, 'ok': True})
-        ctx.assumptions.add('abstract:Spectrum.wave setter accepts every positive strictly increasing grid')
+        ctx.assumptions.add('callee contract:Spectrum.wave setter accepts exactly the positive strictly increasing grids (discharged against the body: Spectrum.wave.setter#body)')
         self.attrs['_wave'] = value
         ctx.write_event(self, 'setattr _wave')
         return None
@@ -868,3 +868,43 @@ def c15_lemmas():
                      lambda: ctx.oblige('C15::Spectrum.crop.retained_samples_unaltered[%s]' % what, S.eq(val(i), x0.at((i,)))))
     out.append(('C15::crop', crop_lemma))
     return out
+
+
+# ---------------------------------------------------------------------------------------
+# The wavelength setter on the real code (C15): the abstraction used at call sites (wave_setter_model) says
+# "refuses exactly the grids that are not positive and strictly increasing, otherwise stores the grid" - here
+# that is discharged against the body (np.sort abstract: sorted result, identity on sorted input).
+
+def _wave_setter_body():
+    c = contract('lentil.radiometry.Spectrum.wave.setter#body', level='I')
+    c.qualname = 'lentil.radiometry.Spectrum.wave.setter'
+    c.tag = 'body'
+
+    def params(ctx):
+        cls = ctx.world.repo.klass('lentil.radiometry.Spectrum')
+        n = ctx.fresh_int('n')
+        ctx.assume(n >= 1)
+        old = array(ctx, 'old_wave', (ctx.fresh_int('n_old'),), 'float')
+        sp = Obj(cls, {'_wave': old, '_value': array(ctx, 'old_value', old.shape, 'float'), '_waveunit': unit_obj(ctx, 'nm'), '_valueunit': None})
+        return {'self': sp, 'value': array(ctx, 'grid', (n,), 'float')}
+    c.params = params
+    c.modifies = {'self'}
+
+    def invalid(ctx, env):
+        g = env['value']
+        n = g.shape[0]
+        q = z3.Int(ctx._name('vq'))
+        return z3.Or(z3.Exists([q], z3.And(q >= 0, q < S.z(n), S.z(S.le(g.at((q,)), 0)))),
+                     z3.Exists([q], z3.And(q >= 0, q + 1 < S.z(n), S.z(S.ge(g.at((q,)), g.at((q + 1,)))))))
+    c.raises['ValueError'] = invalid
+
+    @c.post('stores_the_grid')
+    def _(ctx, env0, env, out):
+        g0, w1 = env0['value'], A.as_array(ctx, env['self'].attrs['_wave'])
+        i, = ints(ctx, 'i')
+        return z3.And(S.z(S.eq(w1.shape[0], g0.shape[0])),
+                      z3.Implies(z3.And(i >= 0, i < S.z(g0.shape[0])), S.z(S.eq(w1.at((i,)), g0.at((i,))))))
+    return c
+
+
+_wave_setter_body()
